@@ -260,7 +260,7 @@ PROPS = {
             H("H_C03_sampledOneOfPtr", "SampledFrom(1..3 values), OneOf(Just,Just), Ptr(Bool(),false)", reach=["value", "invalid"], quick=Q, thorough=T),
             H("H_C03_filter", "Bool().Filter(id): predicate holds, at most 5 tries", reach=["value", "invalid"], quick=Q, thorough=T),
             H("H_C03_floatRange", "Float64Range on 3 representative ranges ([1,3072.5], [-1.5,2.5], [0,+Inf]) with 8 symbolic words: every path of the real float kernel", reach=["value", "invalid"], quick=Q, thorough=T),
-            H("H_C03_ufloat64", "genUfloatRange on any non-negative non-NaN float64 bounds min<=max (bit patterns symbolic; exponents of the two ends adjacent, or one end denormal/zero or infinite), up to 9 words; result compared on bit patterns", reach=["value", "invalid"], thorough_only=True, thorough=T),
+            H("H_C03_ufloat64", "genUfloatRange on any non-negative non-NaN float64 bounds min<=max (bit patterns symbolic; exponents of the two ends adjacent, or one end denormal/zero or infinite), up to 7 words; result compared on bit patterns", reach=["value", "invalid"], thorough_only=True, thorough=T),
         ],
         "assumptions": [
             "genGeom's float expression uint64(Log1p(-f)/Log1p(-p)) is summarised as a non-decreasing step function of the 53-bit draw, computed by native bisection of the current source's expression and checked for monotonicity at every threshold and at 2048 sampled pairs",
